@@ -184,7 +184,8 @@ def check_main(pid, tier, seed, replay=None):
             print('--- shard %d output tail ---\n%s' % (idx, out))
         return 2
     print('HELD property=%s tier=%s seed=%d evaluations=%d distinct_nontrivial=%d wall=%.1fs' % (
-        pid, tier, seed, acc.evaluations, len(acc.sigs), wall))
+        pid, tier, seed, acc.evaluations,
+        len(acc.sigs) + acc.counters.get('_distinct_by_construction', 0), wall))
     return 0
 
 
@@ -192,7 +193,7 @@ def write_evidence(mod, pid, tier, seed, acc, wall, n_new, known, missing):
     os.makedirs(EVIDENCE_DIR, exist_ok=True)
     cov = {
         'evaluations': acc.evaluations,
-        'distinct_nontrivial': len(acc.sigs),
+        'distinct_nontrivial': len(acc.sigs) + acc.counters.get('_distinct_by_construction', 0),
         'rule': mod.RULE,
         'samples': acc.samples[:Acc.MAX_SAMPLES],
         'observed': dict(sorted(acc.counters.items())),
